@@ -12,6 +12,7 @@ CONSTANTS
   ZTCode = {10000,20067,30115,40153,50186,80266,120349,200476,300601,340644,400705,470769,520813,530821,540829,600877,1001148,3502184,10003711,10223752,10743847}
   ZDCode = {30309,60475,90600,100636,120703,140765,160822,170849,200926,1002127,3003705}
   Delivery = "by_prior"
+  Passes = "user_table"
   QNum = {0,7,12,13,15,1012}
   QShift = 12
   QDen = {1,4}
